@@ -456,7 +456,7 @@ pub fn run(run: &mut Run) -> Finish {
     let tier = run.ctx.tier;
     let balpha = builder_alphabet();
     let nb = balpha.len() as u64;
-    let bdepth = tier.pick(4usize, 6);
+    let bdepth = tier.pick(4usize, 5);
     for len in 1..=bdepth {
         run.par_slice(&format!("builder: every history of exactly {len} calls over a {nb}-operation alphabet, then into_sourcemap"), len as u64, nb.pow(len as u32), |idx, l| {
             let k = idx & ((1 << 40) - 1);
@@ -486,7 +486,7 @@ pub fn run(run: &mut Run) -> Finish {
         vec![BOp::AddSource("a".into()), BOp::AddSource("b".into()), BOp::AddSource("/abs/x.js".into()), BOp::SetContents(true, s("text")), BOp::Ignore(false)],
         vec![BOp::AddName("n".into()), BOp::AddName("m".into()), BOp::AddSource("".into()), BOp::AddRaw(2, 0, true, true), BOp::SetContents(false, s("text"))],
     ];
-    let pdepth = tier.pick(3usize, 4);
+    let pdepth = tier.pick(3usize, 5);
     for (pi, prefix) in prefixes.iter().enumerate() {
         for len in 1..=pdepth {
             run.par_slice(&format!("builder from a non-initial state (prefix #{pi} of {} calls): every continuation of exactly {len} calls", prefix.len()), 20 + (pi * 8 + len) as u64, nb.pow(len as u32), |idx, l| {
@@ -499,7 +499,9 @@ pub fn run(run: &mut Run) -> Finish {
                 l.traces += 1;
                 l.transitions += ops.len() as u64 + 1;
                 let sh = model_state_hash_b(&ops);
-                l.states.insert(sh);
+                if len <= 4 {
+                    l.states.insert(sh);
+                }
                 l.case(true, sh % 4096);
             });
         }
@@ -554,7 +556,7 @@ pub fn run(run: &mut Run) -> Finish {
     }
     Finish {
         level: "model_checking",
-        rule: "E2: every history of builder calls up to the stated length (alphabet: add_source x4, add_name x3, add x8, add_raw x2, set_source_contents x4, add_to_ignore_list x2, set_source_root x5, set_file x2, set_debug_id x2) is replayed on a fresh SourceMapBuilder in lock-step with a Vec+linear-search interning model: returned ids / raw tokens and all getters after every step, the finished map's sources (joined with the root), names, contents, ignore list, file, debug id, root and every token's resolved strings at the end. Every history of map operations (set_source_root x6, set_source x6, set_source_contents x4, to_writer+from_slice) from 12 seed maps: after every step get_source(i) = join(root, raw_i), contents, and the serialised sources/sourceRoot are the raw names and root. Builder histories also start from four non-initial states (prefixes with several sources, contents, roots, raw tokens). No state merging: states = distinct reference-model states (builder) / histories (map), counted for histories of at most five operations; transitions = operations executed on real objects; traces = complete histories.".into(),
+        rule: "E2: every history of builder calls up to the stated length (alphabet: add_source x4, add_name x3, add x8, add_raw x2, set_source_contents x4, add_to_ignore_list x2, set_source_root x5, set_file x2, set_debug_id x2) is replayed on a fresh SourceMapBuilder in lock-step with a Vec+linear-search interning model: returned ids / raw tokens and all getters after every step, the finished map's sources (joined with the root), names, contents, ignore list, file, debug id, root and every token's resolved strings at the end. Every history of map operations (set_source_root x6, set_source x6, set_source_contents x4, to_writer+from_slice) from 12 seed maps: after every step get_source(i) = join(root, raw_i), contents, and the serialised sources/sourceRoot are the raw names and root. Builder histories also start from four non-initial states (prefixes with several sources, contents, roots, raw tokens). No state merging: states = distinct reference-model states (builder) / histories (map), counted for histories of at most five operations (four after a prefix); transitions = operations executed on real objects; traces = complete histories.".into(),
         assumptions: vec!["operations with out-of-range ids (documented to panic) are not part of the alphabet".into(), "tokens sharing a position are compared as a multiset".into()],
         coverage_extra: json!({"builder_depth": bdepth, "builder_alphabet": nb, "map_depth": mdepth, "map_alphabet": nm, "map_seeds": ns}),
     }
